@@ -320,6 +320,10 @@ def stage_lr(work, tier, seed):
                 if not g.get("layout") and iid % 2 == 0:
                     ins.append({"iid": iid, "text": text_in, "lex": lex, "partial": False, "lexer": "any",
                                 "meta": {"kind": kind, "anylex": True}})
+                    # ... and with partial parse on (whatever is returned as Ok must still be a
+                    # derivation of a prefix)
+                    ins.append({"iid": iid, "text": text_in, "lex": lex, "partial": True, "lexer": "any",
+                                "meta": {"kind": kind, "anylex": True}})
                 inputs["%s#%d" % (cid, iid)] = [text_in, lex]
             gtext[cid] = text
             cases.append({"id": cid, "grammar": text, "cfg": {"algo": "lr", "tt": tt},
@@ -750,7 +754,8 @@ def stage_prec(work, tier, seed):
 
 
 LEX_STRS = ["a", "ab", "abc", "b", "a1", "ba", "aa"]
-LEX_RES = ["a+", "[ab]+", "ab?", "a|ab", "[a-c]+", "\\w+", "[a-c1]+", "b+", "a[b1]*", "ab|a", "aa?"]
+LEX_RES = ["a+", "[ab]+", "ab?", "a|ab", "[a-c]+", "\\w+", "[a-c1]+", "b+", "a[b1]*", "ab|a", "aa?",
+           "ab", "a", "abc", "aa"]   # the last four: regexes that are plain literals
 LEX_WINDOWS = ["a", "ab", "abc", "aab", "a1", "ba", "b", "abab", "aa", "c", "abc1", "1a", "ab1", "aaa", "bab", "x"]
 
 
@@ -943,6 +948,13 @@ def pipeline_docs(tier, seed):
         "aug_ref_opt_sep": "S: Tc AUG?[Ta] S | Tc;\nterminals\nTa: 'a';\nTc: 'c';\n",
         "augl_ref": "S: Ta AUGL?;\nterminals\nTa: 'a';\n",
         "empty_ref_plus": "S: Ta EMPTY+;\nterminals\nTa: 'a';\n",
+        # rules named like the implicit symbols that nothing refers to
+        "aug_rule_unreferenced": "S: Ta;\nAUG: Ta;\nterminals\nTa: 'a';\n",
+        "augl_rule_with_layout": "S: Ta;\nLayout: Tb*;\nAUGL: Ta;\nterminals\nTa: 'a';\nTb: 'b';\n",
+        "augl_rule_no_layout": "S: Ta;\nAUGL: Ta;\nterminals\nTa: 'a';\n",
+        "empty_rule_unreferenced": "S: Ta;\nEMPTY: Ta;\nterminals\nTa: 'a';\n",
+        "stop_rule_unreferenced": "S: Ta;\nSTOP: Ta;\nterminals\nTa: 'a';\n",
+        "aug_rule_two_parts": "AUG: Ta;\nS: Ta;\nAUG: Tb;\nterminals\nTa: 'a';\nTb: 'b';\n",
         # terminals without a recogniser that the start rule does not reach
         "norec_unused": "S: Ta;\nterminals\nTa: 'a';\nSpare: ;\n",
         "norec_unreachable_rule": "S: Ta;\nU: Spare Ta;\nterminals\nTa: 'a';\nSpare: ;\n",
@@ -2088,6 +2100,11 @@ def stage_ast(work, tier, seed):
         insts.append({"name": "a%d" % k, "shape": "gen:%d" % i, "grammar": G.docgen(rngd),
                       "settings": dict(gcombos[i % len(gcombos)], builder="default"), "inputs": [], "nones": None,
                       "table": None, "extra_mods": [], "combo": 0, "sentences_only": True})
+    # one parser object reused for all inputs of an instance, after failed parses (LR, default builder)
+    for inst in insts:
+        if inst["settings"]["algo"] == "lr" and inst["settings"].get("builder") == "default" and inst["inputs"] \
+                and not inst["settings"].get("lexer"):
+            inst["session"] = True
     # tables are needed for the query/run module (names of enum variants): dump with the same settings
     cases = []
     for inst in insts:
@@ -2131,7 +2148,15 @@ def stage_ast(work, tier, seed):
             continue
         if inst["settings"]["builder"] != "default" or inst["table"] is None:
             continue
-        for j, (inp, out) in enumerate(zip(inst["inputs"], r["runs"])):
+        runs = list(zip(inst["inputs"], r["runs"], [False] * len(inst["inputs"])))
+        if inst.get("session") and len(r.get("session", [])) == len(inst["inputs"]):
+            # the same inputs through the reused parser: judged like the single-shot results
+            runs += list(zip(inst["inputs"], r["session"], [True] * len(inst["inputs"])))
+        elif inst.get("session") and r.get("session") and r["session"][0] in ("panic", "hang", "crash"):
+            # the whole session ended abnormally: every input of it counts
+            runs += [(x, r["session"][0], True) for x in inst["inputs"]]
+        for jj, (inp, out, reused) in enumerate(runs):
+            j = jj % len(inst["inputs"])
             if "wants" in inst:
                 want = inst["wants"][j]
             elif inst["shape"].startswith("corpus:"):
@@ -2154,7 +2179,8 @@ def stage_ast(work, tier, seed):
                 body = out.split(";;")[0]
                 body = body.split(" ", 2)[2] if body.count(" ") >= 2 else ""
             got = _re.findall(r'"((?:[^"\\]|\\.)*)"', body) if ok else []
-            recs.append({"id": iid, "input": inp, "res": "ok" if ok else out[:120], "want": want, "got": got,
+            recs.append({"id": iid + ("+reuse" if reused else ""), "input": inp, "res": "ok" if ok else out[:120],
+                         "want": want, "got": got,
                          "all": inst["alls"][j] if "alls" in inst else want,
                          "wnone": inst["nones"][j] if inst["nones"] else -1, "gnone": len(_re.findall(r"\bNone\b", body))})
     rp = work.path("ast", "recs.ndjson")
@@ -2166,6 +2192,7 @@ def stage_ast(work, tier, seed):
     gt = {}
     for inst in insts:
         gt["%s|%s" % (inst["shape"], "/".join("%s=%s" % kv for kv in sorted(inst["settings"].items())))] = inst["grammar"]
+        gt["%s|%s+reuse" % (inst["shape"], "/".join("%s=%s" % kv for kv in sorted(inst["settings"].items())))] = inst["grammar"]
     return {"verdicts": [v for v in verdicts if v["bad"]], "c11": c11, "c15": c15, "gtext": gt,
             "states": r["distinct"], "transitions": r["states"],
             "ncases": len(insts), "ngenerated": ngen, "ntraces": len(verdicts),
